@@ -106,6 +106,16 @@ func (bpi *BucketPolicyItem) Validate(bucket string, iam IAMService) error {
 	if err := bpi.Resources.Validate(bucket); err != nil {
 		return err
 	}
+	// Principal, Action and Resource are required elements of a statement
+	if len(bpi.Principals) == 0 {
+		return policyErrInvalidPrincipal
+	}
+	if len(bpi.Actions) == 0 {
+		return policyErrInvalidAction
+	}
+	if len(bpi.Resources) == 0 {
+		return policyErrInvalidResource
+	}
 
 	containsObjectAction := bpi.Resources.ContainsObjectPattern()
 	containsBucketAction := bpi.Resources.ContainsBucketPattern()
